@@ -81,8 +81,9 @@ func findTypesInPackage(
 			continue
 		}
 
-		// We want named types (struct, int, string, etc.)
-		namedType, ok := typeName.Type().(*types.Named)
+		// We want named types (struct, int, string, etc.); an alias declaration
+		// ("type T = other.T") annotates the defined type it denotes
+		namedType, ok := types.Unalias(typeName.Type()).(*types.Named)
 		if !ok {
 			continue
 		}
